@@ -366,8 +366,9 @@ class Checker:
                 ctx.cov["disagreements_checked"] += 1
                 got = iraw.get("ok")
                 contradicts = got is None or [[n, b] for n, b in sorted(got) if b] != sraw
-                if contradicts and not self.reported:
+                if contradicts and not self.reported and stream != "shrink":
                     self.reported = True
+                    calls, k, iraw, mraw, sraw = self.shrink_raw(src, calls, k, iraw, mraw, sraw)
                     ctx.violations.append({
                         "what": "the span bags accumulated by to_taxa (before deduplication) are not the multiset union "
                                 "of the spans of the labels translated to each taxon",
@@ -378,6 +379,8 @@ class Checker:
                                           "map_taxonomy.deduplicated_taxa replaced by the identity; labels = "
                                           "[[name, [span ids]]], span id s -> Span(s, s + s % 3, f'p{s}')"},
                     })
+                elif contradicts and stream == "shrink":
+                    self.last_raw = (k, iraw, mraw, sraw)
                 elif not contradicts:
                     ctx.broken.append(f"corr:{stream}:raw")
             if fin[k] != mres:
@@ -386,6 +389,54 @@ class Checker:
                 if len(ctx.notes) < 10:
                     ctx.notes.append(f"{stream}: to_taxa result differs (raw bags {'agree' if iraw == {'ok': mraw} else 'differ'}): "
                                      f"impl={str(fin[k])[:300]} model={str(mres)[:300]}")
+
+
+def _shrink_raw(self, src, calls, k, iraw, mraw, sraw):
+    """Greedy shrinking of a raw-bag violation: a single call, then fewer labels, then fewer spans."""
+    import copy
+
+    def bad(cand):
+        self.last_raw = None
+        saved = (self.ctx.cov["evaluations"], dict(self.ctx.cov["streams"]), list(self.ctx.broken),
+                 self.ctx.cov["disagreements_checked"], dict(self.ctx.cov["distribution"]))
+        path = None if src.get("default") else self.write(src["text"])
+        try:
+            self.to_taxa_case("shrink", src, path, cand, "shrink")
+        finally:
+            (self.ctx.cov["evaluations"], self.ctx.cov["streams"], self.ctx.broken[:],
+             self.ctx.cov["disagreements_checked"], self.ctx.cov["distribution"]) = saved
+        return self.last_raw
+
+    best = (calls, k, iraw, mraw, sraw)
+    r = bad([calls[k]])
+    if r:
+        calls = [copy.deepcopy(calls[k])]
+        best = (calls,) + r
+        changed = True
+        while changed:
+            changed = False
+            labels = calls[0]
+            for i in range(len(labels)):
+                cand = [labels[:i] + labels[i + 1:]]
+                r = bad(cand)
+                if r:
+                    calls, best, changed = cand, (cand,) + r, True
+                    break
+            if changed:
+                continue
+            for i, (L, sp) in enumerate(labels):
+                for j in range(len(sp)):
+                    cand = [labels[:i] + [[L, sp[:j] + sp[j + 1:]]] + labels[i + 1:]]
+                    r = bad(cand)
+                    if r:
+                        calls, best, changed = cand, (cand,) + r, True
+                        break
+                if changed:
+                    break
+    return best
+
+
+Checker.shrink_raw = _shrink_raw
 
 
 def bx_is_literal(ctx, drv, impl, extra):
@@ -432,6 +483,10 @@ def run(ctx):
             ctx.broken.append("default-table-does-not-parse-in-the-model")
             default_rows = {"ok": []}
         default_rows = default_rows["ok"]
+        tok = drv.call("c09.table_ok", default=True)
+        ctx.cov["default_table_ok"] = tok  # hypothesis of C09_table_wf evaluated on the regenerated table
+        if not (tok["ok"] and tok["translator_ok"]):
+            ctx.broken.append("default-table-not-well-formed(tableOk)")
         ctx.cov["bx_is_literal_cases"] = bx_is_literal(ctx, drv, impl, [r[1] for r in default_rows])
         ctx.cov["exhaustive"] = True
         # -- default taxonomy
@@ -475,7 +530,7 @@ def run(ctx):
         for chunk in range(0, len(calls), 4):
             ck.to_taxa_case("default-to_taxa", src, None, calls[chunk:chunk + 4], f"default-{chunk}")
         # -- custom taxonomies
-        n_custom = 150 if quick else 3000
+        n_custom = 500 if quick else 5000
         for k in range(n_custom):
             text, pool = gen_custom(rng, k)
             path = ck.write(text)
@@ -506,6 +561,8 @@ def run(ctx):
         "C09_exact: membership in the translation = 'some row applies' (literal: P = L; regex: oracle full match), nothing else",
         "C09_literal_only_itself: is_literal = only dots and characters regex.escape leaves alone; such a row applies iff L = P",
         "C09_bag: raw bag of a taxon = Σ multiplicity × occurrences, from any reachable state",
+        "C09_table_wf: a text passing tableOk is read without error into its distinct rows (tableOk is evaluated on the "
+        "default table by the driver at run time: coverage.default_table_ok; not kernel-checked, too slow)",
     ]
     ctx.cov["exercised_only"] = [
         "the regex engine itself (regex.fullmatch / Match.expand are the oracle; the harness computes them with the real module)",
